@@ -186,6 +186,12 @@ func (e *robustEnv) template(name string) interface{} {
 			map[string]interface{}{"id": "e1", "type": "Ed25519VerificationKey2018", "purposes": []interface{}{"authentication"}, "publicKeyJwk": okp()},
 			map[string]interface{}{"id": "e2", "type": "Ed25519VerificationKey2020", "purposes": []interface{}{"assertionMethod"}, "publicKeyJwk": okp()},
 			map[string]interface{}{"id": "e3", "type": "Ed25519VerificationKey2018", "publicKeyBase58": refBase58([]byte(ed.Pub.(ed25519.PublicKey)))}}}
+	case "patch_keys_multibase":
+		ed := e.conc.pool.Get("ed", "robust-ed")
+
+		return map[string]interface{}{"action": "add-public-keys", "publicKeys": []interface{}{
+			map[string]interface{}{"id": "m1", "type": "Ed25519VerificationKey2020", "purposes": []interface{}{"authentication"},
+				"publicKeyMultibase": "z" + refBase58([]byte(ed.Pub.(ed25519.PublicKey)))}}}
 	case "patch_services":
 		return e.cenv.patchJSON(&CPatch{A: "add-services", Ents: []CEnt{{1, 2}}})
 	case "patch_services_objects":
@@ -288,6 +294,10 @@ func replacement(repl string, old interface{}) (interface{}, bool) {
 		return map[string]interface{}{}, true
 	case "deep_nesting":
 		return json.RawMessage(strings.Repeat("[", 5000) + strings.Repeat("]", 5000)), true
+	case "one_char":
+		return "u", true
+	case "three_chars":
+		return "fed", true
 	case "deep_list_bad_leaf":
 		return json.RawMessage(strings.Repeat("[", 48) + `""` + strings.Repeat("]", 48)), true
 	case "deep_object_bad_leaf":
